@@ -62,6 +62,9 @@ func GenParams(t *rapid.T, p Profile) ParamSpec {
 	}
 	if p.Halving && ps.Prefix < 1000 && rapid.IntRange(0, 5).Draw(t, "halving") == 0 {
 		k := uint32(rapid.IntRange(1, 34).Draw(t, "halvings"))
+		if k%6 == 0 {
+			k++ // every 6th halving coincides with a retarget boundary, which a short synthetic chain cannot serve
+		}
 		ps.Base = k*210000 - uint32(ps.Prefix) - uint32(rapid.IntRange(1, 12).Draw(t, "below"))
 	}
 	return ps
